@@ -21,8 +21,8 @@ TECHNIQUE = (
 RULE = (
     "reader case = (0-60 rows, 1-8 columns of kind int/float/bool/safe-string, reader kind tsv/parquet(row group)/"
     "dataframe/renamed/joined(2-3 children of mixed kinds)/computed, chunk size 1..n+1, requested column subset+order "
-    "or all; an in-memory frame may carry a filtered / sliced / reversed index); non-trivial: >=2 chunks with a short last chunk. Writer history = initialize, appends of 0-7 rows as "
-    "frame/dict(s)/record, finalize, read back through the writer's associated reader (text with separator tab , ; | / Parquet x buffer size 0,2..9 x buffer kind); non-trivial: >=2 "
+    "or all; an in-memory frame may carry a filtered / sliced / reversed index; text inputs may print whole-valued floats without a decimal point); non-trivial: >=2 chunks with a short last chunk. Writer history = initialize, appends of 0-7 rows as "
+    "frame/dict(s)/record (unbuffered writers also get frames whose columns come in another order: refused or stored by name), finalize, read back through the writer's associated reader (text with separator tab , ; | / Parquet x buffer size 0,2..9 x buffer kind); non-trivial: >=2 "
     "appends of which one crosses a buffer boundary while rows are pending. Distinct = distinct canonical JSON."
 )
 ASSUMPTIONS = [
@@ -50,7 +50,9 @@ def _values(draw, kind, n):
     if kind == "int":
         return draw(st.lists(st.integers(-10**6, 10**6), min_size=n, max_size=n))
     if kind == "float":
-        return draw(st.lists(st.one_of(st.sampled_from(HARD_FLOATS), st.floats(allow_nan=False, allow_infinity=False, width=64)),
+        # whole values are frequent: a text file may print them without a decimal point (see "compact")
+        return draw(st.lists(st.one_of(st.sampled_from(HARD_FLOATS), st.floats(allow_nan=False, allow_infinity=False, width=64),
+                                       st.integers(-2000, 2000).map(float)),
                              min_size=n, max_size=n))
     if kind == "bool":
         return draw(st.lists(st.booleans(), min_size=n, max_size=n))
@@ -88,6 +90,8 @@ def _reader_case(draw, tier):
         "df_index": draw(st.sampled_from([None, None, "filtered", "sliced", "reversed"])),
         # separators of the delimited-text inputs (children of a joined reader may differ)
         "seps": [draw(st.sampled_from(["\t", "\t", ","])) for _ in range(3)],
+        # text inputs print whole-valued floats without a decimal point (1250 rather than 1250.0), as many tools do
+        "compact": draw(st.booleans()),
     }
 
 
@@ -141,10 +145,16 @@ def _make_reader(kind, df, path_stem, row_group, sep="\t"):
     return reader, "text"
 
 
+_COMPACT = [False]
+
+
 def _fmt(v):
     if isinstance(v, (bool, np.bool_)):
         return "True" if v else "False"
     if isinstance(v, (float, np.floating)):
+        v = float(v)
+        if _COMPACT[0] and v.is_integer() and abs(v) < 1e15 and not (v == 0 and math.copysign(1, v) < 0):
+            return str(int(v))
         return repr(float(v))
     return str(v)
 
@@ -189,6 +199,7 @@ def _check_reader(case):
     df = _frame(cols, n)
     kinds = {c["name"]: c["kind"] for c in cols}
     model = {c["name"]: c["values"] for c in cols}
+    _COMPACT[0] = bool(case.get("compact"))
     with scratch_dir() as tmp:
         rk = case["reader"]
         seps = case.get("seps") or ["\t"] * 3
@@ -341,7 +352,20 @@ class WriterExec:
         if not rows and how != "frame":
             return
         kind = self.init["buffer_kind"] if self.buffered else "frame"
-        if kind == "frame":
+        if how == "permuted":
+            # a frame whose columns come in another order than the writer's: refused (ValueError) or stored under the right
+            # names - never stored under the wrong ones.  Only unbuffered writers (a refusal leaves nothing pending).
+            if self.buffered or len(self.names) < 2 or not rows:
+                return
+            df = self._df(rows)
+            df = df[list(reversed(self.names))]
+            try:
+                guarded(self.writer.append_data, df, allowed=[(ValueError, "do not match")], sig="writer.append_data")
+            except Rejected:
+                self.refused = getattr(self, "refused", 0) + 1
+                return
+            self.permuted_accepted = True
+        elif kind == "frame":
             guarded(self.writer.append_data, self._df(rows), sig="writer.append_data")
         elif kind == "dicts":
             dicts = [dict(zip(self.names, r)) for r in rows]
@@ -408,6 +432,7 @@ def run_history(ops):
         return {"nontrivial": ex.appends >= 2 and ex.crossed, "classes": ["writer-" + ops[0]["fmt"], "buffer-" + (ops[0]["buffer_kind"] if ex.buffered else "none")]
                 + (["writer-recycled-batch-list"] if getattr(ex, "recycled", False) else [])
                 + (["writer-second-session"] if getattr(ex, "sessions", 1) > 1 else [])
+                + (["writer-refused-permuted-columns"] if getattr(ex, "refused", 0) else [])
                 + (["writer-custom-separator"] if (ops[0]["fmt"] != "parquet" and ops[0].get("sep", "\t") != "\t") else []),
                 "counters": {"rows_written": len(ex.model)}}
 
@@ -474,7 +499,7 @@ def extra(tier, seed, shard, nshards, stats):
                 raise
 
         @precondition(lambda self: self.ex is not None and not self.finalized)
-        @rule(data=st.data(), k=st.integers(0, 7), how=st.sampled_from(["bulk", "single", "frame"]))
+        @rule(data=st.data(), k=st.integers(0, 7), how=st.sampled_from(["bulk", "single", "frame", "permuted"]))
         def append(self, data, k, how):
             rows = [data.draw(_row_strategy(self.ex.kinds)) for _ in range(k)]
             self.ops.append(("append", rows, how))
@@ -510,7 +535,9 @@ def extra(tier, seed, shard, nshards, stats):
             stats.evaluations += 1
             stats.observe(case, {"nontrivial": self.ex.appends >= 2 and self.ex.crossed,
                                  "classes": ["writer-" + self.ops[0]["fmt"], "buffer-" + (self.ops[0]["buffer_kind"] if self.ex.buffered else "none")]
-                                 + (["writer-second-session"] if getattr(self.ex, "sessions", 1) > 1 else []),
+                                 + (["writer-second-session"] if getattr(self.ex, "sessions", 1) > 1 else [])
+                                 + (["writer-refused-permuted-columns"] if getattr(self.ex, "refused", 0) else [])
+                                 + (["writer-stored-permuted-columns"] if getattr(self.ex, "permuted_accepted", False) else []),
                                  "counters": {"rows_written": len(self.ex.model), "writer_histories": 1}})
 
     n = (1600 if tier == "quick" else 48000) // nshards
